@@ -22,6 +22,15 @@ static const char *PRELUDE =
 "fn pushret(a: array<string>, s: string) -> array<string> { return (array_push a s) }\n"
 "fn nest(a: array<int>) -> array<array<int>> { return [a, a] }\n"
 "fn tupS(t: (int, string)) -> string { return t.1 }\n"
+"struct W { p: P, t: string }\n"
+"fn mkW(p: P, t: string) -> W { return W { p: p, t: t } }\n"
+"fn wS(w: W) -> string { return (+ w.p.s w.t) }\n"
+"fn compose(f: fn(int) -> int, g: fn(int) -> int) -> fn(int) -> int {\n    fn h(x: int) -> int { return (f (g x)) }\n    return h\n}\n"
+"fn pick(a: array<string>, i: int) -> string {\n    if (< i (array_length a)) {\n        let t: string = (at a i)\n        return t\n    }\n    return \"none\"\n}\n"
+"fn build(n: int) -> array<string> {\n    if (== n 0) { return [] }\n    let r: array<string> = (build (- n 1))\n    return (array_push r (int_to_string n))\n}\n"
+"fn dbl(x: int) -> int { return (* x 2) }\n"
+"fn isodd(x: int) -> bool { return (== (% x 2) 1) }\n"
+"fn add2(a: int, b: int) -> int { return (+ a b) }\n"
 "fn deep(s: string, n: int) -> string {\n    if (== n 0) { return s }\n    return (deep (+ s \"d\") (- n 1))\n}\n";
 
 enum { TI, TS, TAI, TAS, TP, TT, TU, TF, THI, THS, TAA, TAP, NTYPES };
@@ -41,6 +50,7 @@ static void gen_block(Gen *g, int n) { for (int i = 0; i < n; i++) gen_stmt(g); 
 static void gen_stmt(Gen *g) {
     char x[16], y[16], z[16], nv[16];
     uint32_t k = gr(g->in_loop ? 30 : 46);
+    if (gr(5) == 0) k = 46 + gr(9);
     ind(g);
     switch (k) {
     /* ---- mutations (allowed inside loops) ---- */
@@ -108,6 +118,15 @@ static void gen_stmt(Gen *g) {
         else if (w == 3) { var(g, TP, x); buf_printf(g->b, "(println %s.s)\n", x); }
         else { var(g, TI, x); buf_printf(g->b, "(println (int_to_string %s))\n", x); }
         break; }
+    case 46: var(g, TP, x); var(g, TS, y); buf_printf(g->b, "set %s (wS (mkW %s %s))\n", y, x, y); break;
+    case 47: var(g, TF, x); var(g, TF, y); buf_printf(g->b, "set %s (compose %s %s)\n", x, x, y); break;
+    case 48: var(g, TAS, x); var(g, TS, y); var(g, TI, z); buf_printf(g->b, "set %s (pick %s (%% %s 5))\n", y, x, z); break;
+    case 49: var(g, TAS, x); buf_printf(g->b, "set %s (build %u)\n", x, gr(7)); break;
+    case 50: var(g, TAI, x); var(g, TAI, y); buf_printf(g->b, "set %s (map %s dbl)\n", x, y); break;
+    case 51: var(g, TAI, x); var(g, TAI, y); buf_printf(g->b, "set %s (filter %s isodd)\n", x, y); break;
+    case 52: var(g, TAI, x); var(g, TI, y); buf_printf(g->b, "set %s (reduce %s 0 add2)\n", y, x); break;
+    case 53: var(g, TAS, x); var(g, TS, y); buf_printf(g->b, "if (> (array_length %s) 0) { let aas: array<array<string>> = [%s, %s]\n", x, x, x); ind(g); buf_printf(g->b, "    let row: array<string> = (at aas 1)\n"); ind(g); buf_printf(g->b, "    set %s (at row 0) }\n", y); break;
+    case 54: var(g, TP, x); var(g, TI, y); buf_printf(g->b, "if (> %s 0) { let tu: (int, array<int>) = (%s, %s.a)\n", y, y, x); ind(g); buf_printf(g->b, "    set %s (array_length tu.1) }\n", y); break;
     default: {  /* if/else */
         var(g, TI, x);
         buf_printf(g->b, "if (== (%% %s 2) 0) {\n", x);
@@ -147,7 +166,14 @@ static const struct { const char *name, *decl, *body; } CHURN[] = {
     { "array_push", "", "let mut a: array<int> = []\n        set a (array_push a i)\n        set a (array_push a 2)\n        set acc (+ acc (at a 0))" },
     { "struct_literal", "struct Q { x: int, s: string }\n", "let p: Q = Q { x: i, s: (int_to_string i) }\n        set acc (+ acc p.x)" },
     { "tuple", "", "let t: (int, string) = (i, (int_to_string i))\n        set acc (+ acc t.0)" },
-    { "closure", "fn mk(n: int) -> fn(int) -> int {\n    fn f(x: int) -> int { return (+ x n) }\n    return f\n}\n", "let f: fn(int) -> int = (mk i)\n        set acc (+ acc (f 1))" },
+    { "closure", "fn mk(n: int) -> fn(int) -> int {\n    fn inner(x: int) -> int { return (+ x n) }\n    return inner\n}\n", "let cl: fn(int) -> int = (mk i)\n        set acc (+ acc (cl 1))" },
+    { "closure_capturing_string", "fn mks(s: string) -> fn(int) -> int {\n    fn inner2(x: int) -> int { return (+ x (str_length s)) }\n    return inner2\n}\n", "let cl: fn(int) -> int = (mks (int_to_string i))\n        set acc (+ acc (cl 1))" },
+    { "closure_immediate_call", "fn mk3(n: int) -> fn(int) -> int {\n    fn inner3(x: int) -> int { return (+ x n) }\n    return inner3\n}\n", "set acc (+ acc ((mk3 i) 2))" },
+    { "array_plus_elementwise", "", "let a: array<int> = [i, 2, 3]\n        let b: array<int> = (+ a a)\n        set acc (+ acc (at b 0))" },
+    { "string_array_concat_elementwise", "", "let a: array<string> = [(int_to_string i), \"q\"]\n        let b: array<string> = (+ a a)\n        set acc (+ acc (array_length b))" },
+    { "map_filter_reduce", "fn d2(x: int) -> int { return (* x 2) }\nfn od(x: int) -> bool { return (== (% x 2) 0) }\nfn ad(a: int, b: int) -> int { return (+ a b) }\n", "let a: array<int> = [i, 2, 3]\n        let m: array<int> = (map a d2)\n        let fl: array<int> = (filter m od)\n        set acc (+ acc (reduce fl 0 ad))" },
+    { "struct_with_array_field", "struct SA { n: string, a: array<string> }\n", "let p: SA = SA { n: (int_to_string i), a: [(int_to_string i), \"k\"] }\n        set acc (+ acc (array_length p.a))" },
+    { "hashmap_keys_values", "", "let h: HashMap<string, string> = (map_new)\n        (map_put h (int_to_string i) \"v\")\n        let ks: array<string> = (map_keys h)\n        let vs: array<string> = (map_values h)\n        set acc (+ acc (+ (array_length ks) (array_length vs)))" },
     { "hashmap", "", "let h: HashMap<string, int> = (map_new)\n        (map_put h (int_to_string i) i)\n        set acc (+ acc (map_size h))" },
     { "nested_string_array", "", "let a: array<string> = [(int_to_string i), \"x\"]\n        let b: array<array<string>> = [a, a]\n        set acc (+ acc (array_length b))" },
     { "union_match", "union R {\n  Ok { v: int },\n  Er { e: string }\n}\n", "let r: R = R.Er { e: (int_to_string i) }\n        match r {\n            Ok(o) => { set acc (+ acc o.v) }\n            Er(x) => { set acc (+ acc (str_length x.e)) }\n        }" },
